@@ -714,9 +714,9 @@ func c13Prepared(c *core.Ctx) {
 				n++
 				// inside a closure passed to once.Do
 				inOnce := false
-				if x.Parent != nil {
-					for _, d := range x.Parent.CallsTo("sync.(*Once).Do") {
-						if closureArg(x.Parent, d, 0) == x {
+				if x.Owner() != nil {
+					for _, d := range x.Owner().CallsTo("sync.(*Once).Do") {
+						if closureArg(x.Owner(), d, 0) == x {
 							inOnce = true
 						}
 					}
